@@ -387,6 +387,7 @@ class Interp:
         self.nmut = 0
         self.kinds: set = set()
         self.saw_multi = 0
+        self.idle_cycle = False
         self.log: list = []
 
     # -- failure helpers (C04 sigs start with 'prog_', C05 with 'views_'/'err_')
@@ -762,7 +763,7 @@ class Interp:
         elif name in ('fold', 'straighten'):
             if not pre:
                 return
-            mode = s.get('mode', 0) % 3
+            mode = [0, 1, 2, 2][s.get('mode', 0) % 4]
             region = None
             if mode == 0:      # region of a set of ops
                 idx = sorted({x % len(pre) for x in s['pts']})
@@ -1123,6 +1124,18 @@ class Interp:
                                repr(e))
         if sum(1 for r in post if len(r.loc) > 1) >= 2:
             self.saw_multi += 1
+        if not self.want_views and name in ('fold', 'straighten'):
+            # C05's open finding: these calls can leave an empty cycle.  The
+            # circuit is then outside the invariant every other call assumes;
+            # the program-order oracle stops here instead of reporting
+            # follow-on effects of that finding under other names.
+            if any(
+                all(c.is_point_idle((cy, q)) for q in range(c.num_qudits))
+                for cy in range(c.num_cycles)
+            ):
+                self.out.label('stopped:idle-cycle-after-' + name)
+                self.idle_cycle = True
+                raise Stop()
         if self.want_views:
             before = len(self.out.violations)
             check_views(c, self.fail_view)
